@@ -153,6 +153,25 @@ def run(ctx):
                               "find_diff_end does not terminate with the positions after which the sequences agree", r)
             reqs.append({"op": "diff", "a": info.frag(a.content), "b": info.frag(b.content)})
             metas.append((replay, [got_s if st == "ok" else "ERR", [got_e["a"], got_e["b"]] if (st2 == "ok" and got_e) else (None if st2 == "ok" else "ERR")]))
+            # ---- explicit start positions (diffEnd_lcs_general / diffStart_shift / diffEnd_shift):
+            # the end positions are at or past the fragment sizes, as in every call of the library
+            p0 = rng.randrange(0, 40)
+            pa, pb = a.content.size + rng.randrange(0, 30), b.content.size + rng.randrange(0, 30)
+            st3, got_s3 = outcome(lambda: a.content.find_diff_start(b.content, p0), 2.0)
+            st4, got_e3 = outcome(lambda: a.content.find_diff_end(b.content, pa, pb), 2.0)
+            exp_s3 = None if exp_s is None else exp_s + p0
+            exp_e3 = None if exp_e is None else {"a": exp_e["a"] + pa - a.content.size, "b": exp_e["b"] + pb - b.content.size}
+            ctx.count("shifted_calls")
+            if ta != tb:
+                ctx.count("shifted_calls_nontrivial")
+            if st3 != "ok" or got_s3 != exp_s3 or st4 != "ok" or got_e3 != exp_e3:
+                r = dict(replay, pos=p0, posA=pa, posB=pb, got=[f"{st3}: {got_s3}", f"{st4}: {got_e3}"],
+                         expected=[exp_s3, exp_e3], fn="find_diff_start/end with start positions")
+                ctx.violation("diff-shifted-wrong",
+                              "find_diff_start/find_diff_end from explicit positions are not the default results shifted", r)
+            reqs.append({"op": "diffAt", "a": info.frag(a.content), "b": info.frag(b.content), "pos": p0, "posA": pa, "posB": pb})
+            metas.append((dict(replay, pos=p0, posA=pa, posB=pb),
+                          [got_s3 if st3 == "ok" else "ERR", [got_e3["a"], got_e3["b"]] if (st4 == "ok" and got_e3) else (None if st4 == "ok" else "ERR")]))
     flush()
     return ctx.finish(
         rule="a case is an ordered pair of documents of one schema: a document with itself (same object), with a "
